@@ -317,7 +317,7 @@ def main(argv):
 
     if a.replay:
         return do_replay(a.replay)
-    if (a.only or os.environ.get("VERIF_REPO")) and not os.environ.get("VERIF_EVIDENCE_DIR"):
+    if (a.only or a.no_kani or a.no_verus or os.environ.get("VERIF_REPO")) and not os.environ.get("VERIF_EVIDENCE_DIR"):
         os.environ["VERIF_EVIDENCE_DIR"] = "/tmp/fpv-dev-evidence"
 
     reg = load_registry()
